@@ -42,6 +42,36 @@ TEXT["C02"] = dict(
     design_ref="5 (C02)",
 )
 
+TEXT["C08"] = dict(
+    category="exploration",
+    technique="seeded simulation (program world): snapshot invariant on every reached state; layouts x targets x versions from the generator",
+    text="Weak fit, said plainly: start_line/varname are a static decoding of the code object; the simulation contributes the population of states "
+    "(which with-items are active where, rebinding of locals for the fallback clause). Every context reported at every suspension/probe is compared with the "
+    "generator's record of the with keyword line and the `as` target (ast-equal; supported forms must not be dropped; otherwise None, the target, or a local currently bound to the manager). "
+    "The 'every with statement of the standard library' static leg is not done (no run, schedule or fault in it).",
+    note="Trusted: the generator's own line bookkeeping and target table; layouts: one line, backslash, parenthesised, multi-line call arguments; 1-3 items.",
+    design_ref="5 (C08), 6",
+)
+TEXT["C09"] = dict(
+    category="exploration",
+    technique="seeded simulation (program world): generator-based managers and exit stacks populated by tape-drawn registration sequences, observed suspended and while exiting",
+    text="At every suspension and probe: a non-exiting @contextmanager/@asynccontextmanager context must carry as inner_stack exactly the manager's generator chain "
+    "(incl. yield-from sub-generators) with exact contexts recursively; an exiting one has no inner_stack and its generator frame is in the main series; an ExitStack/AsyncExitStack "
+    "context has one child per registered and not-yet-run callback in order, with obj, is_async and a description naming the registration method "
+    "({enter_context, push(manager)} and {enter_async_context, push_async_exit(manager)} identified, as contextlib stores them identically).",
+    note="Trusted: the world's registration log (wrappers around the ExitStack methods) and 'started' marks set by the registered callables themselves.",
+    design_ref="5 (C09)",
+)
+TEXT["C16"] = dict(
+    category="exploration",
+    technique="seeded simulation (program world): origin / extract_outermost contracts checked on every frame of every snapshot, suspended and from inside the running root",
+    text="On every Frame of every snapshot (suspended root, running stack, extract(root) from inside the running root): origin is None or weak-referenceable with "
+    "extract_outermost(origin).pyframe being that frame; frames of suspended generator-likes the world created carry that object as origin; extract_outermost(x) equals "
+    "extract(x).frames[0] field by field and raises (the recorded error if any) when there are no frames.",
+    note="Trusted: the world's table of generator-like objects (W.link) and manager generators.",
+    design_ref="5 (C16)",
+)
+
 PENDING_REASON = "check not built yet in this round (work in progress; see DESIGN.md section 5 for the planned simulation)"
 
 ALL = ["C%02d" % i for i in range(1, 21)]
